@@ -100,11 +100,15 @@ fn check_other(value: &str, ctx: usize) -> Option<(String, String)> {
     None
 }
 pub fn search() -> Outcome {
+    std::panic::set_hook(Box::new(|_| {}));
     let mut n = 0u64;
     for (ci, _) in OCTX.iter().enumerate() {
         for v in OTHER.iter().chain(if strict_long() { LONG.iter() } else { [].iter() }) {
             n += 1;
-            if let Some((got, want)) = check_other(v, ci) {
+            let (v2, c2) = (v.to_string(), ci);
+            let r = std::panic::catch_unwind(move || check_other(&v2, c2));
+            let r = match r { Ok(x) => x, Err(e) => Some((format!("panic: {}", e.downcast_ref::<String>().cloned().or_else(|| e.downcast_ref::<&str>().map(|x| x.to_string())).unwrap_or_default()), "returns normally".to_string())) };
+            if let Some((got, want)) = r {
                 return Outcome { found: true, input: format!("other\t{}\t{}", v, ci), observed: got, expected: want, evaluations: n, bound: BOUND.into() };
             }
         }
